@@ -429,7 +429,7 @@ pub open spec fn ps4_be(s: Seq<u8>, d: Seq<u8>, proto: int, len: int) -> int {
     wb(s[0], s[1]) + wb(s[2], s[3]) + wb(d[0], d[1]) + wb(d[2], d[3]) + proto + len
 }
 pub open spec fn ps4_le(s: Seq<u8>, d: Seq<u8>, proto: int, len: int) -> int {
-    w(s[0], s[1]) + w(s[2], s[3]) + w(d[0], d[1]) + w(d[2], d[3]) + 256 * proto + (len / 256 + 256 * (len % 256))
+    w(s[0], s[1]) + w(s[2], s[3]) + w(d[0], d[1]) + w(d[2], d[3]) + 256 * proto + (crate::vx::b16(len, 0) + 256 * crate::vx::b16(len, 1))
 }
 pub open spec fn ps4_k(s: Seq<u8>, d: Seq<u8>, proto: int, len: int) -> int {
     s[1] as int + s[3] as int + d[1] as int + d[3] as int + proto + len % 256
@@ -440,6 +440,7 @@ pub proof fn lemma_ps4(s: Seq<u8>, d: Seq<u8>, proto: int, len: int)
         ps4_le(s, d, proto, len) >= 0, ps4_be(s, d, proto, len) >= 0, ps4_k(s, d, proto, len) >= 0,
         ps4_be(s, d, proto, len) == 0 ==> ps4_k(s, d, proto, len) == 0,
 {
+    reveal(crate::vx::b16);
     vstd::arithmetic::div_mod::lemma_fundamental_div_mod(len, 256);
 }
 
